@@ -167,4 +167,93 @@ Proof.
       { rewrite <- Hsk, skipn_length. lia. }
       unfold len in *. rewrite app_length in Flen. cbn [length] in *. lia.
 Qed.
+
+(* ---------- one accepted call ---------- *)
+Lemma lex_cmp_nil_r k : lex_cmp k [] <> Lt.
+Proof. destruct k; cbn; discriminate. Qed.
+
+Lemma inv_with_last G rem E acc b l : inv ty G rem E acc b -> inv ty G rem E acc (with_last b l).
+Proof.
+  intros [Hm Hs Htop Hlen Hbud HG]. constructor; cbn [with_last b_stack b_len]; auto.
+  eapply minv_frame; [..|exact Hm]; reflexivity.
+Qed.
+
+Lemma apply_op_ok G rem E acc b o l' :
+  inv ty G (len (op_key o) + rem) E acc b -> last_ok acc b -> op_ok o ->
+  spec_call (b_last b) o = (l', Ok tt) ->
+  exists E' b', apply_op b o = (b', Ok tt) /\
+    inv ty G rem E' (step_acc (b_last b) acc o) b' /\ last_ok (step_acc (b_last b) acc o) b' /\
+    b_last b' = l'.
+Proof.
+  intros Hinv Hlast (Hkb & Hv) Hsc.
+  set (k := op_key o) in *. set (outo := match o with OpInsert _ v => Some v | OpAdd _ => None end).
+  set (dupe := match o with OpInsert _ _ => true | OpAdd _ => false end).
+  assert (Hout : out_of outo = op_val o) by (destruct o; reflexivity).
+  assert (Happ : apply_op b o =
+     let '(b1, r) := check_last_key b k dupe in
+     match r with Ok _ => insert_output b1 k outo | Err x => (b1, Err x) | Panic => (b1, Panic) end).
+  { destruct o; reflexivity. }
+  assert (Hsc' : spec_call (b_last b) o =
+     match b_last b with
+     | None => (Some k, Ok tt)
+     | Some l => if dupe && key_eqb k l then (b_last b, Err (EDuplicateKey k))
+                 else if key_ltb k l then (b_last b, Err (EOutOfOrder l k)) else (Some k, Ok tt) end).
+  { destruct o; reflexivity. }
+  rewrite Hsc' in Hsc. clear Hsc'.
+  (* check_last_key accepts; facts about the order *)
+  assert (Hchk : check_last_key b k dupe = (with_last b (Some k), Ok tt) /\ l' = Some k /\
+                 lex_cmp k (lastkey acc) <> Lt /\
+                 is_dup acc k = (match b_last b with Some l => key_eqb k l | None => false end) /\
+                 (is_dup acc k = true -> outo = None)).
+  { unfold check_last_key. red in Hlast. destruct (b_last b) as [l|] eqn:Hbl.
+    - destruct acc as [|[k0 v0] acc0]; [discriminate|]. inversion Hlast; subst k0. cbn [lastkey is_dup].
+      destruct (dupe && key_eqb k l) eqn:Hd; [discriminate|].
+      destruct (key_ltb k l) eqn:Hlt; [discriminate|]. inversion Hsc; subst l'.
+      splits; auto.
+      + unfold key_ltb in Hlt. destruct (lex_cmp k l); congruence.
+      + intros Hke. rewrite Hke, andb_true_r in Hd. unfold dupe in Hd. unfold outo. destruct o; congruence.
+    - destruct acc as [|[k0 v0] acc0]; [|discriminate]. inversion Hsc; subst l'. cbn [lastkey is_dup].
+      splits; auto; [apply lex_cmp_nil_r|discriminate]. }
+  destruct Hchk as (Hchk & -> & Hcmp & Hdupeq & Hdupnone).
+  rewrite Happ, Hchk. cbn iota beta.
+  pose proof (inv_with_last _ _ _ _ _ (Some k) Hinv) as Hinv1.
+  assert (Hacc' : step_acc (b_last b) acc o = if is_dup acc k then acc else (k, out_of outo) :: acc).
+  { unfold step_acc. fold k. rewrite Hdupeq, Hout. reflexivity. }
+  rewrite Hacc'.
+  destruct (insert_output (with_last b (Some k)) k outo) as [b' r] eqn:Hio.
+  assert (Hres : exists E', r = Ok tt /\ inv ty G rem E' (if is_dup acc k then acc else (k, out_of outo) :: acc) b' /\
+                            b_last b' = Some k).
+  { destruct k as [|b0 bs0] eqn:Hk.
+    - assert (Hlk : lastkey acc = []) by (destruct (lastkey acc); [reflexivity|cbn in Hcmp; congruence]).
+      assert (Hinv0 : inv ty G rem E acc (with_last b (Some []))).
+      { destruct Hinv1 as [A1 A2 A3 A4 A5 A6]. constructor; auto. }
+      destruct (insert_empty_ok G rem E acc _ outo b' r Hinv0) as (Hr & Hi & Hl); auto; [lia|].
+      exists E. auto.
+    - destruct (insert_nonempty_ok G rem E acc _ b0 bs0 outo b' r Hinv1) as (E' & Hr & Hi & Hl); auto; [lia|].
+      exists E'. auto. }
+  destruct Hres as (E' & -> & Hi & Hl). exists E', b'. splits; auto.
+  red. rewrite Hl. destruct (is_dup acc k) eqn:Hd; [|reflexivity].
+  destruct acc as [|[k0 v0] acc0]; [discriminate|]. cbn [is_dup] in Hd. apply key_eqb_eq in Hd. congruence.
+Qed.
+
+(* ---------- the call loop ---------- *)
+Lemma run_extend_ok : forall ops G rem E acc b,
+  inv ty G (key_bytes (map op_key ops) + rem) E acc b -> last_ok acc b -> Forall op_ok ops ->
+  Forall (fun r => r = Ok tt) (spec_calls (b_last b) ops) ->
+  exists E' acc' b', run_extend b ops = (b', Ok tt) /\
+    inv ty G rem E' acc' b' /\ rev acc' = spec_content (b_last b) ops acc.
+Proof.
+  induction ops as [|o ops IH]; intros G rem E acc b Hinv Hlast Hok Hcalls.
+  - exists E, acc, b. cbn [run_extend spec_content map key_bytes fold_right] in *. splits; auto.
+  - cbn [spec_calls] in Hcalls. destruct (spec_call (b_last b) o) as [l' x] eqn:Hsc.
+    inversion Hcalls as [|? ? Hx Hrest]; subst. inversion Hok as [|? ? Ho Hoks]; subst.
+    cbn [map key_bytes fold_right] in Hinv.
+    assert (Hinv' : inv ty G (len (op_key o) + (key_bytes (map op_key ops) + rem)) E acc b).
+    { destruct Hinv as [A1 A2 A3 A4 A5 A6]. constructor; auto. unfold key_bytes in *. lia. }
+    destruct (apply_op_ok G _ E acc b o l' Hinv' Hlast Ho Hsc) as (E1 & b1 & Hap & Hi1 & Hl1 & Hbl1).
+    cbn [run_extend]. rewrite Hap. subst l'.
+    destruct (IH G rem E1 _ b1 Hi1 Hl1 Hoks Hrest) as (E' & acc' & b' & Hrun & Hi' & Hrev).
+    exists E', acc', b'. splits; auto.
+    destruct (spec_content_step (b_last b) o ops acc _ Hsc) as (Hsc1 & _). rewrite Hsc1. exact Hrev.
+Qed.
 End Main.
